@@ -1171,6 +1171,11 @@ func runCase(c *gal.Ctx, f *hflow) {
 		if len(r) < 2 && cap(r) > len(r) {
 			smallSpare = true
 		}
+		if len(r) > 12 {
+			// sort.Slice is insertion sort (stable) only up to 12 elements; the models
+			// (and the exact comparison of the arrays) rely on that order
+			panic(fmt.Sprintf("c10: the generator produced a range slice of %d elements", len(r)))
+		}
 	}
 	var slots []slot
 	for _, ps := range psteps {
